@@ -3,6 +3,7 @@
 package main
 
 import (
+	"strings"
 	"sync"
 
 	"github.com/kubeshark/base/pkg/languages/kfl"
@@ -29,9 +30,13 @@ func genKflShared(r *Rand, tier string, emit func(sx.Sx)) {
 	jsA := `{"j":"{\"user\":{\"token\":\"S1\",\"id\":7}}","H":{"Content-Type":"a","content-type":"b"},"n":5}`
 	jsB := `{"j":"{\"user\":{\"id\":8}}","H":{"content-type":"b"},"n":6}`
 	jsC := `{"j":"not json","H":{"Content-Type":"a"},"n":7}`
-	sets := [][]string{{xmlAmp, xmlPlain, xmlLt, xmlDecl}, {jsA, jsB, jsC}, {xmlAmp, jsA, xmlPlain, jsB}}
+	// white space around the text (a pretty-printed body) next to a body that asks for it to be kept: what one record
+	// says about its own white space is not a setting of the reader
+	xmlPadded := `{"x":"<order>\n  <item>\n    <card> 4111 </card>\n    <shop> plain </shop>\n  </item>\n  <item><card>5</card></item>\n</order>","n":8}`
+	xmlPreserve := `{"x":"<order xml:space=\"preserve\"><item><card>6011</card><shop>  kept  </shop></item><item><card>9</card></item>` + strings.Repeat("<pad> </pad>", 200) + `</order>","n":9}`
+	sets := [][]string{{xmlAmp, xmlPlain, xmlLt, xmlDecl}, {jsA, jsB, jsC}, {xmlAmp, jsA, xmlPlain, jsB}, {xmlPadded, xmlPreserve, xmlPadded, xmlPreserve}}
 	queries := []string{`redact("x.xml().order.item[0].card")`, `redact("x.xml().order.item[1].card") and n > 0`, `redact("x.xml().order.item[0].shop")`,
-		`x.xml().order.item[0].card == "4111"`, `x.xml().order.item[0].shop == "plain"`,
+		`x.xml().order.item[0].card == "4111"`, `x.xml().order.item[0].shop == "plain"`, `x.xml().order.item[0].shop == "plain" and redact("x.xml().order.item[1].card")`,
 		`redact("j.json().user.token")`, `j.json().user.id == 7`, `H["Content-Type"] == "a"`, `H["content-type"] == "b" and n >= 5`,
 		`redact("j.json().user.token", "x.xml().order.item[0].card")`, `n == 1 or n == 5`, `x.startsWith("<order") and redact("n")`}
 	for _, q := range queries {
